@@ -542,6 +542,44 @@ def pool_validation(chk):
     return n
 
 
+def declaration_alias_probe(chk):
+    """The declared space is the one given at construction: arrays the caller passed and later reuses (writes into) must not
+    change the grid, whether or not anything has sampled from the space yet."""
+    from black_it.samplers.halton import HaltonSampler
+    from black_it.samplers.random_uniform import RandomUniformSampler
+    from black_it.search_space import SearchSpace
+
+    rng = chk.rng
+    n = 0
+    for as_array in (True, False):
+        for verbose in (False, True):
+            for _ in range(3):
+                lo, hi, pr = [0.0, -1.0], [1.0, 1.0], [0.1, 0.25]
+                b = np.array([lo, hi]) if as_array else [list(lo), list(hi)]
+                p = np.array(pr) if as_array else list(pr)
+                with contextlib.redirect_stdout(io.StringIO()):
+                    sp = SearchSpace(b, p, verbose)
+                    control = SearchSpace([list(lo), list(hi)], list(pr), False)
+                # the caller reuses its arrays for something else
+                if as_array:
+                    b[:] = [[40.0, 40.0], [50.0, 50.0]]
+                    p[:] = [2.5, 2.5]
+                else:
+                    b[0][:], b[1][:] = [40.0, 40.0], [50.0, 50.0]
+                    p[:] = [2.5, 2.5]
+                n += 1
+                seed = rng.below(2**31)
+                pts = np.vstack([RandomUniformSampler(4, random_state=seed).sample(sp, np.zeros((0, 2)), np.zeros(0)),
+                                 HaltonSampler(4, random_state=seed).sample(sp, np.zeros((0, 2)), np.zeros(0))])
+                off = [(float(v), c) for row in pts for c, v in enumerate(row) if not np.any(control.param_grid[c] == v)]
+                if off or any(len(a) != len(g) or (a != g).any() for a, g in zip(sp.param_grid, control.param_grid)):
+                    chk.violation({"kind": "oracle", "clause": "membership", "with": "declaration-arrays-reused"},
+                                  {"failed": "oracle:membership", "detail": f"space declared as bounds {lo}..{hi} precision {pr} "
+                                   f"({'ndarray' if as_array else 'list'} inputs, verbose={verbose}); after the caller reused its arrays the "
+                                   f"samplers propose {off[:3]}", "case": {"kind": "alias_probe", "as_array": as_array, "verbose": verbose}})
+    return n
+
+
 def gen_calibration(rng, quick):
     sp = gen_space(rng, max_dims=3)
     first = rng.choice(["halton", "uniform", "rseq"])
@@ -625,6 +663,7 @@ def run(chk, replay=None):
     os.environ["LOKY_MAX_CPU_COUNT"] = "1"
     chk.proof_gate()
     n_poolval = pool_validation(chk)
+    n_poolval += declaration_alias_probe(chk)
     quick = chk.tier == "quick"
     r = chk.rng
     if replay:
